@@ -81,6 +81,25 @@ where
             let value = ip(&v, &a);
             Some((lc::proof_from_parts(paths, v, cols, wf), value))
         }
+        // the opening vector doubled (claims 2 p(z)), honest paths, and NO columns: every per-column check
+        // of the verifier must notice that the column list does not match the t derived indices
+        "forge_nocolumns" => {
+            let wf = if wf_on {
+                let r: Vec<F> = sp.squeeze_field_elements(n_rows);
+                let w = row_mul(&mat_rows, &r);
+                sp.absorb(&w);
+                Some(w)
+            } else {
+                None
+            };
+            sp.absorb(&L::point_to_vec(point.clone()));
+            let v: Vec<F> = row_mul(&mat_rows, &b).into_iter().map(|x| x + x).collect();
+            sp.absorb(&v);
+            let idx = lc::get_indices_from_sponge(n_ext, t, &mut sp).ok()?;
+            let paths = idx.iter().map(|j| tree.generate_proof(*j).unwrap()).collect();
+            let value = ip(&v, &a);
+            Some((lc::proof_from_parts(paths, v, vec![], wf), value))
+        }
         "forge_columns" => {
             let r: Vec<F> = if wf_on { sp.squeeze_field_elements(n_rows) } else { vec![] };
             let v: Vec<F> = (0..n_cols).map(|_| F::rand(rng)).collect();
